@@ -171,7 +171,18 @@ def run(ck: Checker):
     ck.analysed_func(f, cfg)
     g = Guard(cfg, cfg.lat)
     target = [n for n in cfg.nodes if header_expr(n) is not None and any(dotted(c.func) == 'self._target' for c in calls_in(header_expr(n)))]
-    mk = [n for n in cfg.nodes if isinstance(n.ast, ast.Assign) and isinstance(n.ast.value, ast.Call) and (dotted(n.ast.value.func) or '').endswith('QueueHandler')]
+    def _is_qh_class(k):
+        k = k or ''
+        if k.split('.')[-1] == 'QueueHandler':
+            return True
+        c_ = f.module.classes.get(k) if '.' not in k else None
+        return c_ is not None and any(b.split('.')[-1] == 'QueueHandler' for b in c_.bases)
+
+    mk = [n for n in cfg.nodes if isinstance(n.ast, ast.Assign) and isinstance(n.ast.value, ast.Call) and _is_qh_class(dotted(n.ast.value.func))]
+    if not mk:
+        # whatever object is handed to addHandler
+        handed = {c.args[0].id for n in cfg.nodes if header_expr(n) is not None for c in calls_in(header_expr(n)) if method_of(c)[1] == 'addHandler' and c.args and isinstance(c.args[0], ast.Name)}
+        mk = [n for n in cfg.nodes if isinstance(n.ast, ast.Assign) and isinstance(n.ast.value, ast.Call) and len(n.ast.targets) == 1 and isinstance(n.ast.targets[0], ast.Name) and n.ast.targets[0].id in handed]
     add = [n for n in cfg.nodes if header_expr(n) is not None and any(method_of(c)[1] == 'addHandler' for c in calls_in(header_expr(n)))]
     rem = [n for n in cfg.nodes if header_expr(n) is not None and any(method_of(c)[1] == 'removeHandler' for c in calls_in(header_expr(n)))]
     ck.need(target and mk, f'{f.key}: target call / QueueHandler not found')
@@ -181,6 +192,18 @@ def run(ck: Checker):
         rem = rem or mk
     qh = mk[0].ast.targets[0].id
     probs = []
+    # the handler that forwards is the standard QueueHandler, whose prepare() makes every record picklable (message and
+    # args merged, exc_info formatted into the text and dropped) -- or a subclass that leaves that machinery alone
+    hk = dotted(mk[0].ast.value.func) or ''
+    hcls = f.module.classes.get(hk.split('.')[-1]) if '.' not in hk else None
+    if hcls is not None:
+        over = sorted({m_.name for m_ in hcls.methods()} & {'prepare', 'enqueue', 'emit', 'handle', 'format'})
+        if not any(b.split('.')[-1] == 'QueueHandler' for b in hcls.bases):
+            probs.append(f'the child installs `{hk}`, which is not a logging.handlers.QueueHandler')
+        elif over:
+            probs.append(f'the child installs `{hk}`, which overrides {over} of the standard QueueHandler: prepare() is what makes a record picklable (it formats exc_info into the text and merges the args) — records carrying an exception or unpicklable arguments fail in the queue\'s feeder thread and never reach the parent')
+    elif hk.split('.')[-1] != 'QueueHandler':
+        probs.append(f'the child installs `{hk}`, not the standard QueueHandler')
     p = path_avoiding(cfg, cfg.normal_succ(mk[0].id), {target[0].id}, avoid={a.id for a in add})
     if p is not None:
         probs.append('the target can run before the queue handler is installed: its first records are not forwarded')
